@@ -27,4 +27,55 @@ def startFor (ops : List (Nat × OKind)) (id : Nat) : Pc :=
 def sysOf (cfg : Cfg) (oracle : List Bool) (ops : List (Nat × OKind)) : Sys :=
   { st := St.init cfg oracle, frames := ops.map fun o => { id := o.1, pc := Driver.startPc o.2 } }
 
+theorem lookup_of_mem_nodup {ops : List (Nat × OKind)} (hn : (ops.map (·.1)).Nodup) {o : Nat × OKind} (ho : o ∈ ops) :
+    ops.lookup o.1 = some o.2 := by
+  induction ops with
+  | nil => cases ho
+  | cons x r ih =>
+    simp only [List.map_cons, List.nodup_cons] at hn
+    rcases List.mem_cons.mp ho with rfl | ho'
+    · simp [List.lookup]
+    · have : (o.1 == x.1) = false := by
+        simp only [beq_eq_false_iff_ne, ne_eq]
+        intro e
+        exact hn.1 (e ▸ List.mem_map_of_mem ho')
+      obtain ⟨x1, x2⟩ := x
+      simp only [List.lookup, this]
+      exact ih hn.2 ho'
+
+theorem startPc_isStart (k : OKind) : (Driver.startPc k).isStart = true := by cases k <;> rfl
+
+/-- the initial system of a workload is initial, and `startFor` names its program counters -/
+theorem sysOf_init (cfg : Cfg) (oracle : List Bool) (ops : List (Nat × OKind)) : InitSys cfg (sysOf cfg oracle ops) := by
+  refine ⟨⟨oracle, rfl⟩, ?_, rfl⟩
+  intro f hf
+  obtain ⟨o, _, rfl⟩ := List.mem_map.mp hf
+  exact ⟨startPc_isStart o.2, rfl, rfl⟩
+
+theorem sysOf_ids (cfg : Cfg) (oracle : List Bool) (ops : List (Nat × OKind)) :
+    (sysOf cfg oracle ops).frames.map (·.id) = ops.map (·.1) := by
+  simp [sysOf, List.map_map, Function.comp_def]
+
+theorem sysOf_start (cfg : Cfg) (oracle : List Bool) {ops : List (Nat × OKind)} (hn : (ops.map (·.1)).Nodup) :
+    ∀ f ∈ (sysOf cfg oracle ops).frames, startFor ops f.id = f.pc := by
+  intro f hf
+  obtain ⟨o, ho, rfl⟩ := List.mem_map.mp hf
+  simp only [startFor, lookup_of_mem_nodup hn ho]
+
+theorem linv_sysOf (cfg : Cfg) (oracle : List Bool) {ops : List (Nat × OKind)} (hd : DistinctPuts ops) (h2 : 2 ≤ cfg.maxLevels) :
+    LInv cfg (startFor ops) (sysOf cfg oracle ops) [] :=
+  linv_init (sysOf_init cfg oracle ops) h2 (by rw [sysOf_ids]; exact hd.1) (startFor ops) (sysOf_start cfg oracle hd.1)
+
+theorem inOrder_take {cfg : Cfg} {y : Sys} {sched : List Nat} (h : InOrder cfg y sched) (k : Nat) :
+    InOrder cfg y (sched.take k) := by
+  intro n f hf t b hpc hs
+  by_cases hnk : n < k
+  · have e1 : (sched.take k).take n = sched.take n := by rw [List.take_take]; congr 1; omega
+    rw [e1] at hf ⊢
+    refine h n f hf t b hpc ?_
+    rw [List.getElem?_take] at hs
+    simpa [hnk] using hs
+  · rw [List.getElem?_take] at hs
+    simp [hnk] at hs
+
 end HappyModel.C14
